@@ -422,14 +422,81 @@ theorem C05_primitives_faithful (S : Segmenter) (U : UData) (lb0 : LB) :
       rw [applyFwd_replace.mpr ⟨x', z, e1, e2, rfl⟩]
     · cases h
 
-/-- Full statement (not proved on the editor model): aborting an incremental search or a completion
-    leaves line, undo stack and group level as before the command.  `C05_truncate_restores` is its
-    log-level core; the lifting needs the loop invariants of `searchLoop` / `completeCircular`. -/
+/-- Full statement: aborting an incremental search or a completion leaves line, undo stack and group
+    level as before the command.  `C05_truncate_restores` is its log-level core.  As written it is
+    FALSE in vi mode — `C05_abort_transparent_refuted` below, finding D47: a key that leaves insert
+    mode during the search closes undo groups below the search's mark. -/
 def C05_abort_transparent_statement : Prop :=
   ∀ (S : Segmenter) (U : UData) (cfg : EdCfg) (s s' : Ed) (fuel : Nat),
     (reverseIncrementalSearch S U cfg fuel s = .ok (none, s') ∨
      (completeLine S U cfg fuel s = .ok (none, s') ∧ cfg.listCompletion = false)) →
     s'.line.buf = s.line.buf ∧ s'.changes.undos = s.changes.undos ∧ s'.changes.level = s.changes.level
+
+/-! ### D47: the statement above is FALSE in vi mode -/
+
+/-- witness data: one cluster per character, width 1, vi mode, one history entry -/
+def C05_wit_seg : Segmenter where
+  seg t := t.map fun c => [c]
+  flatten_eq t := by induction t with
+    | nil => rfl
+    | cons c t ih => simp [ih]
+  ne_nil t g h := by
+    simp only [List.mem_map] at h
+    obtain ⟨c, _, rfl⟩ := h
+    exact List.cons_ne_nil _ _
+
+def C05_wit_udata : UData :=
+  { alnum := Char.isAlphanum, ws := Char.isWhitespace, upper := fun c => [c], lower := fun c => [c],
+    width := List.length }
+
+def C05_wit_cfg : EdCfg := { vi := true, hist := [['a']] }
+
+/-- vi insert mode, line "xy", the undo group of the insert mode open (`[Begin]`, level 1); pending
+    input: Alt-X (leaves insert mode, then `X`), Ctrl-G -/
+def C05_wit_state : Ed :=
+  { line := { buf := ['x', 'y'], pos := 0, cap := 8, canGrow := true },
+    saved := { buf := [], pos := 0, cap := 8, canGrow := true },
+    changes := { level := 1, undos := [.begin], redos := [] }, ring := KillRing.new 60, histIdx := 1,
+    inp := {}, hint := none, highlightChar := false, defaultPrompt := true,
+    input := { buf := [], avail := [], future := [[0x1b, 0x58], [0x07]] }, obs := [], validatorCalls := [] }
+
+/-- **D47 (model side).** An incremental search in vi insert mode, during which Alt-X is typed (it
+    leaves insert mode: `changes.end()` closes the search's own group AND the insert-mode group
+    below the search's mark) and which is then aborted: the abort returns `None`, the line is as
+    before ("xy"), but the undo stack, `[Begin]` before, is now `[Delete(0, "xy")]` — the first of
+    the two entries that restoring the backup pushed survives `truncate(mark)`, because the stack
+    had become shorter than the mark.  The next Undo "undoes" that deletion: the line becomes
+    "xyxy" (`C05_D47_read`; the same on the real code: known_findings.json D47). -/
+theorem C05_D47_abort_leaves_stale_entry :
+    (reverseIncrementalSearch C05_wit_seg C05_wit_udata C05_wit_cfg 4 C05_wit_state).toOption.map
+      (fun r => (r.1.isNone, r.2.line.buf, r.2.changes.undos)) =
+    some (true, ['x', 'y'], [.delete 0 ['x', 'y']]) := by decide +kernel
+
+/-- **D47, a whole read**: initial text "xy" (cursor at 0); Alt-i, Ctrl-R, Alt-X, Ctrl-G, `u`, Enter.
+    Nothing was edited, yet the read returns "xyxy". -/
+theorem C05_D47_read :
+    (readline C05_wit_seg C05_wit_udata C05_wit_cfg (KillRing.new 60) [] ['x', 'y']
+      { buf := [], avail := [], future := [[0x1b, 0x69], [0x12], [0x1b, 0x58], [0x07], [0x75], [0x0d]] }).1
+      = .line ['x', 'y', 'x', 'y'] := by decide +kernel
+
+/-- **`C05_abort_transparent_statement` is refuted** (vi mode; witness `C05_D47_abort_leaves_stale_entry`).
+    In emacs mode `next_cmd` never closes undo groups, and the statement stays open there. -/
+theorem C05_abort_transparent_refuted : ¬ C05_abort_transparent_statement := by
+  intro h
+  have w := C05_D47_abort_leaves_stale_entry
+  cases hr : reverseIncrementalSearch C05_wit_seg C05_wit_udata C05_wit_cfg 4 C05_wit_state with
+  | error e => rw [hr] at w; cases w
+  | ok r =>
+    obtain ⟨o, s'⟩ := r
+    rw [hr] at w
+    simp only [Except.toOption, Option.map, Option.some.injEq, Prod.mk.injEq] at w
+    obtain ⟨ho, _, hu⟩ := w
+    cases o with
+    | some c => cases ho
+    | none =>
+      have h2 := (h C05_wit_seg C05_wit_udata C05_wit_cfg C05_wit_state s' 4 (Or.inl hr)).2.1
+      rw [hu] at h2
+      cases h2
 
 /-! ### D22: behaviour the check deliberately does not judge -/
 
